@@ -69,6 +69,10 @@ MEMBERS = {
     "bad_both": {"jsonrpc": "2.0", "id": 3, "result": {}, "error": {"code": 1, "message": "m"}},
     "bad_nested": [{"jsonrpc": "2.0", "id": 9, "method": "ping"}],
 }
+# members far larger than a pipe read (a base64 blob in a result, a long log record)
+MEMBERS["big_note"] = {"jsonrpc": "2.0", "method": "notifications/message", "params": {"level": "info", "data": "B" * 400_000}}
+MEMBERS["big_resp"] = {"jsonrpc": "2.0", "id": "r-big", "result": {"blob": "R" * 400_000}}
+MEMBERS["big_req"] = {"jsonrpc": "2.0", "id": "q-big", "method": "sampling/createMessage", "params": {"messages": [], "pad": "Q" * 400_000}}
 MEMBERS["resp_says_old_version"] = {"jsonrpc": "2.0", "id": 71, "result": {"protocolVersion": "2024-11-05", "upstream": "gateway"}}
 MEMBERS["resp_says_new_version"] = {"jsonrpc": "2.0", "id": 72, "result": {"protocolVersion": "2025-06-18", "serverInfo": {"name": "x", "version": "1"},
                                                                         "capabilities": {}}}
@@ -345,6 +349,12 @@ def exec_wrapper_handshake(ctx, case: Dict[str, Any]) -> None:
                 proc = patch.spawned[0]
                 if case.get("batch_on_initialized") is not None:
                     await asyncio.sleep(0.2)     # (the batch was written by the server itself, see the factory)
+                elif case.get("pieces"):
+                    # the line reaches the client the way a pipe delivers it: in reads of at most 64 KiB
+                    whole = (json.dumps([MEMBERS[k] for k in members]) + "\n").encode()
+                    for i_ in range(0, len(whole), case["pieces"]):
+                        proc.feed(whole[i_:i_ + case["pieces"]])
+                        await asyncio.sleep(0)
                 else:
                     proc.feed((json.dumps([MEMBERS[k] for k in members]) + "\n").encode())
                 proc.feed((json.dumps(MEMBERS["note"]) + "\n").encode())
@@ -720,6 +730,11 @@ def run(ctx):
                 case = {"handshake": hv, "variant": variant, "batch": b}
                 if ctx.mine():
                     exec_wrapper_handshake(ctx, case)
+            if variant == "with_initialize":
+                for pieces in (65536, 4096):
+                    case = {"handshake": hv, "variant": variant, "batch": ["big_note", "req", "big_resp", "big_req", "note"], "pieces": pieces}
+                    if ctx.mine():
+                        exec_wrapper_handshake(ctx, case)
             for d_ in (0, 0.001, 0.01, 0.04, 0.1):
                 case = {"handshake": hv, "variant": variant, "batch": ["req", "note", "resp"], "batch_on_initialized": d_}
                 if ctx.mine():
